@@ -297,8 +297,19 @@ func (p *provider) deleteRuleSet(obj any) {
 
 	p.l.Info().Msg("Rule set deletion received")
 
-	// should never be of a different type. ok if panics
-	rs := obj.(*v1alpha4.RuleSet) // nolint: forcetypeassert
+	// if a delete event has been missed (e.g. while the watch was reconnecting),
+	// the informer delivers the last known state wrapped into a tombstone
+	if tombstone, ok := obj.(cache.DeletedFinalStateUnknown); ok {
+		obj = tombstone.Obj
+	}
+
+	rs, ok := obj.(*v1alpha4.RuleSet)
+	if !ok {
+		p.l.Warn().Msgf("Unexpected object of type %T received on rule set deletion", obj)
+
+		return
+	}
+
 	conf := p.toRuleSetConfiguration(rs)
 
 	if err := p.p.OnDeleted(conf); err != nil {
@@ -373,9 +384,10 @@ func (p *provider) updateStatus(
 
 	modRS.Status.ActiveIn = x.IfThenElse(len(modRS.Status.ActiveIn) == 0, "0/0", modRS.Status.ActiveIn)
 
-	usedBy := strings.Split(modRS.Status.ActiveIn, "/")
-	loadedBy, _ := strconv.Atoi(usedBy[0])
-	matchedBy, _ := strconv.Atoi(usedBy[1])
+	// the value is read back from the api server. Anything unexpected counts as 0
+	loadedByValue, matchedByValue, _ := strings.Cut(modRS.Status.ActiveIn, "/")
+	loadedBy, _ := strconv.Atoi(loadedByValue)
+	matchedBy, _ := strconv.Atoi(matchedByValue)
 
 	modRS.Status.ActiveIn = fmt.Sprintf("%d/%d", loadedBy+usageIncrement, matchedBy+matchIncrement)
 
@@ -390,10 +402,15 @@ func (p *provider) updateStatus(
 		return
 	}
 
-	// if there is an error, it is always of the below type
+	// errors reported by the api server are of the below type. Others (connection
+	// errors, timeouts) are not and cannot be handled here
 	var statusErr *errors2.StatusError
 
-	errors.As(err, &statusErr)
+	if !errors.As(err, &statusErr) {
+		p.l.Warn().Err(err).Msgf("Failed updating RuleSet status")
+
+		return
+	}
 
 	switch statusErr.ErrStatus.Code {
 	case http.StatusNotFound:
